@@ -12,6 +12,7 @@ That the real binary behaves like `configure` — including what it then enforce
 end to end by suite `e2e` (one process per assignment).
 -/
 import Tramp.Model.Config
+import Tramp.Props.C12
 
 namespace Tramp
 
@@ -72,6 +73,30 @@ theorem c19_retry_cap (secs : Nat) :
     retryFor secs ≤ 65535 ∧ (secs ≤ 65535 → retryFor secs = secs) ∧ (secs > 65535 → retryFor secs = 65535) := by
   unfold retryFor
   split <;> omega
+
+/-- glue between C19 and C12: the policy a started plugin runs with always fits the wire fields of the
+    fee-or-expiry failure (u32, u32, u16), and the advertised delta exceeds the safety delta -/
+theorem c19_policy_fits (o : Opts) (c : Config) (h : configure o = some c) :
+    c.feeBase < U32 ∧ c.feePpm < U32 ∧ c.policyDelta < U16 ∧ c.cltvDelta < c.policyDelta := by
+  have hr := (c19_iff o).mp ⟨c, h⟩
+  have hf := c19_faithful o c h
+  unfold U32 U16
+  omega
+
+/-- … so the failure message built from ANY accepted configuration decodes back to exactly the
+    configured option values (the hypotheses of `c12_encode` are discharged by validation). -/
+theorem c19_failure_carries_options (o : Opts) (c : Config) (h : configure o = some c) :
+    ∃ fb fp fd : Bytes,
+      encodeFailure (.foei c.feeBase c.feePpm c.policyDelta) = [0x20, 26] ++ fb ++ fp ++ fd ∧
+      fb.length = 4 ∧ fp.length = 4 ∧ fd.length = 2 ∧
+      (beVal fb : Int) = o.feeBase ∧ (beVal fp : Int) = o.feePpm ∧ (beVal fd : Int) = o.policyDelta := by
+  obtain ⟨hb, hp, hd, _⟩ := c19_policy_fits o c h
+  obtain ⟨fb, fp, fd, he, l1, l2, l3, v1, v2, v3⟩ := c12_encode c.feeBase c.feePpm c.policyDelta hb hp hd
+  have hf := c19_faithful o c h
+  refine ⟨fb, fp, fd, he, l1, l2, l3, ?_, ?_, ?_⟩
+  · rw [v1]; exact hf.2.2.1
+  · rw [v2]; exact hf.2.2.2.1
+  · rw [v3]; exact hf.2.1
 
 /-! Non-vacuity -/
 example : ∃ c, configure ⟨34, 1008, 0, 5000, 60, 60, false, false⟩ = some c := ⟨_, rfl⟩
